@@ -65,6 +65,32 @@ func ServerCheck(sc sim.Scenario, h *sim.History, opt ServerOptions) []Problem {
 	var probs []Problem
 	add := func(sig, f string, a ...any) { probs = append(probs, Problem{Sig: sig, Msg: fmt.Sprintf(f, a...)}) }
 	cfg := refrpc.Config{AllowPush: sc.Cfg.AllowPush, Builtin: !sc.Cfg.DisableBuiltin, Resolve: func(m string) bool { return sim.Known[m] }}
+	// Ids of the callbacks the server issues in this history: a member that is
+	// not request-shaped and bears one of them may be taken for that callback's
+	// reply (when exactly it is outstanding is not modelled here: either way).
+	cbIDs := map[string]bool{}
+	for _, e := range h.Events {
+		if e.Kind != "wire" {
+			continue
+		}
+		if ms, ok := refjson.Members([]byte(e.Data)); ok {
+			id, isReq := "", false
+			for _, m := range ms {
+				switch m.Key {
+				case "method":
+					isReq = true
+				case "id":
+					id = string(m.Value)
+				}
+			}
+			if isReq && id != "" {
+				cbIDs[id] = true
+			}
+		}
+	}
+	if len(cbIDs) > 0 {
+		cfg.MaybeCallback = func(id string) bool { return cbIDs[id] }
+	}
 
 	// ---- pass 1: records in arrival order ---------------------------------
 	var queueSteps []int
